@@ -160,58 +160,270 @@ theorem overlapExt_nonint_err (a b : String) (h : parseExt a = none ∨ parseExt
 
 /-! ### array form -/
 
-theorem firstHit_all_ok (l : List Bool) : firstHit (l.map .ok) = .ok (l.any id) := by
-  induction l with
-  | nil => rfl
-  | cons b l ih => cases b <;> simp [firstHit, ih]
+theorem allExt_cons (a : String) (l : List String) : allExt (a :: l) = ((parseExt a).isSome && allExt l) := by
+  simp [allExt]
 
-/-- **arr_empty**: false when either list is empty -/
-theorem arr_empty_left (bs : List String) : overlapExtArr [] bs = .ok false := by simp [overlapExtArr, firstHit]
-theorem arr_empty_right (as : List String) : overlapExtArr as [] = .ok false := by
-  simp only [overlapExtArr, List.map_nil]
+theorem allExt_mem (l : List String) (h : allExt l = true) (s : String) (hs : s ∈ l) : (parseExt s).isSome = true := by
+  unfold allExt at h; exact List.all_eq_true.mp h s hs
+
+/-- a pairwise answer (no error) means both IDs are well formed -/
+theorem overlapExt_ok_parses (a b : String) (v : Bool) (h : overlapExt a b = .ok v) :
+    (parseExt a).isSome = true ∧ (parseExt b).isSome = true := by
+  by_contra hc
+  have : parseExt a = none ∨ parseExt b = none := by
+    cases ha : parseExt a <;> cases hb : parseExt b <;> simp_all
+  rw [overlapExt_nonint_err a b this] at h
+  cases h
+
+theorem ovInner_ok (a : String) (restA : List String) (f : String → Bool) :
+    ∀ bs : List String, (∀ b ∈ bs, overlapExt a b = .ok (f b)) → allExt restA = true → allExt bs = true →
+      ovInner a restA bs = .ok (bs.any f) := by
+  intro bs
+  induction bs with
+  | nil => intro _ _ _; rfl
+  | cons b bs ih =>
+    intro h hA hB
+    rw [allExt_cons, Bool.and_eq_true] at hB
+    simp only [ovInner, h b List.mem_cons_self, List.any_cons]
+    cases hf : f b
+    · simp only [Bool.false_or]
+      exact ih (fun b' hb' => h b' (List.mem_cons_of_mem _ hb')) hA hB.2
+    · simp [hA, hB.2]
+
+theorem ovOuter_ok (bs : List String) (f : String → String → Bool) (hB : allExt bs = true) :
+    ∀ as : List String, (∀ a ∈ as, ∀ b ∈ bs, overlapExt a b = .ok (f a b)) → allExt as = true →
+      ovOuter bs as = .ok (as.any fun a => bs.any fun b => f a b) := by
+  intro as
   induction as with
-  | nil => simp [firstHit]
-  | cons a l ih => simpa using ih
+  | nil => intro _ _; rfl
+  | cons a as ih =>
+    intro h hA
+    rw [allExt_cons, Bool.and_eq_true] at hA
+    simp only [ovOuter, ovInner_ok a as (f a) bs (h a List.mem_cons_self) hA.2 hB, List.any_cons]
+    cases hv : bs.any (f a)
+    · simp only [Bool.false_or]
+      exact ih (fun a' ha' => h a' (List.mem_cons_of_mem _ ha')) hA.2
+    · simp
 
-theorem any_flatMap_map {α β} (as : List α) (bs : List β) (f : α → β → Bool) :
-    (as.flatMap fun a => bs.map fun b => f a b).any id = as.any fun a => bs.any fun b => f a b := by
-  induction as with
-  | nil => rfl
-  | cons a l ih => simp only [List.flatMap_cons, List.any_append, List.any_cons, List.any_map, ih]; rfl
-
-/-- **arr_eq_any**: when every pairwise check answers (no error), the array form is the disjunction of the pairwise form -/
-theorem arr_eq_any (as bs : List String) (f : String → String → Bool)
+/-- **arr_eq_any**: on well-formed lists whose pairwise checks answer, the array form is the disjunction of the pairwise form -/
+theorem arr_eq_any (as bs : List String) (f : String → String → Bool) (hA : allExt as = true) (hB : allExt bs = true)
     (h : ∀ a ∈ as, ∀ b ∈ bs, overlapExt a b = .ok (f a b)) :
     overlapExtArr as bs = .ok (as.any fun a => bs.any fun b => f a b) := by
   unfold overlapExtArr
-  have : (as.flatMap fun a => bs.map fun b => overlapExt a b) =
-      (as.flatMap fun a => bs.map fun b => f a b).map Outcome.ok := by
-    rw [List.map_flatMap]
-    apply List.flatMap_congr
-    intro a ha
-    rw [List.map_map]
-    apply List.map_congr_left
-    intro b hb
-    exact h a ha b hb
-  rw [this, firstHit_all_ok, any_flatMap_map]
+  rw [ovOuter_ok bs f hB as h hA]
+  cases hv : (as.any fun a => bs.any fun b => f a b)
+  · simp [hA, hB]
+  · rfl
 
-theorem arr_no_panic_of_pairs (as bs : List String) (h : ∀ a ∈ as, ∀ b ∈ bs, overlapExt a b ≠ .panic) :
-    overlapExtArr as bs ≠ .panic := by
+/-- **arr_empty**: false when either list is empty (and the other is well formed) -/
+theorem arr_empty_left (bs : List String) (hB : allExt bs = true) : overlapExtArr [] bs = .ok false := by
+  have := arr_eq_any [] bs (fun _ _ => false) rfl hB (by simp)
+  simpa using this
+theorem arr_empty_right (as : List String) (hA : allExt as = true) : overlapExtArr as [] = .ok false := by
+  have := arr_eq_any as [] (fun _ _ => false) hA rfl (by simp)
+  rw [this]
+  congr 1
+  induction as with
+  | nil => rfl
+  | cons a l ih => simp
+
+/-! the zoom change of one voxel is never empty, so the `ids[0]` of the pairwise check always exists -/
+
+theorem irange_ne_nil (lo hi : Int) (h : lo ≤ hi) : irange lo hi ≠ [] := by
+  intro he
+  have : lo ∈ irange lo hi := (mem_irange lo hi lo).mpr ⟨Int.le_refl _, h⟩
+  rw [he] at this; cases this
+
+theorem pow2_natAbs_pos (d : Int) : 1 ≤ pow2 (d.natAbs : Int) := by
+  have := pow2_pos (d.natAbs : Int) (Int.natCast_nonneg _); omega
+
+theorem zoomOne_ne_nil (H V : Int) (e : Ext) : zoomOne H V e ≠ [] := by
+  have hn := pow2_natAbs_pos (H - e.h)
+  have hm := pow2_natAbs_pos (V - e.v)
+  have hh : hZoomIdx e.h e.x e.y H ≠ [] := by
+    unfold hZoomIdx hZoomMinMax
+    simp only []
+    split <;> [skip; split] <;>
+    · simp only [ne_eq, List.flatMap_eq_nil_iff, not_forall]
+      refine ⟨_, (mem_irange _ _ _).mpr ⟨Int.le_refl _, by omega⟩, ?_⟩
+      simp only [List.map_eq_nil_iff]
+      exact irange_ne_nil _ _ (by omega)
+  have hv : vZoomIdx e.v e.f V ≠ [] := by
+    unfold vZoomIdx vZoomMinMax
+    simp only []
+    split <;> [skip; split] <;> exact irange_ne_nil _ _ (by omega)
+  unfold zoomOne
+  obtain ⟨p, hp⟩ := List.exists_mem_of_ne_nil _ hh
+  obtain ⟨f, hf⟩ := List.exists_mem_of_ne_nil _ hv
+  intro he
+  have : (⟨H, p.1, p.2, V, f⟩ : Ext) ∈ (hZoomIdx e.h e.x e.y H).flatMap fun p => (vZoomIdx e.v e.f V).map fun f' => ⟨H, p.1, p.2, V, f'⟩ :=
+    List.mem_flatMap.mpr ⟨p, hp, List.mem_map.mpr ⟨f, hf, rfl⟩⟩
+  rw [he] at this; cases this
+
+theorem changeExtE_single_ne_nil (e : Ext) (H V : Int) : changeExtE [e] H V ≠ [] := by
+  obtain ⟨o, ho⟩ := List.exists_mem_of_ne_nil _ (zoomOne_ne_nil H V e)
+  intro he
+  have : o ∈ changeExtE [e] H V := by
+    unfold changeExtE; rw [mem_dedup]; simpa using ho
+  rw [he] at this; cases this
+
+theorem overlapAt_no_panic (tH tV : Int) (e1 e2 : Ext) : overlapAt tH tV e1 e2 ≠ .panic := by
+  unfold overlapAt
+  have h1 := changeExtE_single_ne_nil e1 tH tV
+  have h2 := changeExtE_single_ne_nil e2 tH tV
+  cases hc1 : changeExtE [e1] tH tV with
+  | nil => exact absurd hc1 h1
+  | cons x xs =>
+    cases hc2 : changeExtE [e2] tH tV with
+    | nil => exact absurd hc2 h2
+    | cons y ys => simp
+
+theorem overlapExtAt_no_panic (tH tV : Int) (a b : String) : overlapExtAt tH tV a b ≠ .panic := by
+  unfold overlapExtAt
+  split
+  · simp
+  · split
+    · exact overlapAt_no_panic _ _ _ _
+    · simp
+
+/-- the extended overlap check cannot panic on any two strings -/
+theorem overlapExt_no_panic (a b : String) : overlapExt a b ≠ .panic := by
+  unfold overlapExt
+  simp only []
+  by_cases h : (splitSlash a).length ≠ 5 ∨ (splitSlash b).length ≠ 5
+  · rw [if_pos h]; simp
+  · rw [if_neg h]; exact overlapExtAt_no_panic _ _ _ _
+
+/-- what the inner loop's answers say about the pairs it looked at -/
+theorem ovInner_false (a : String) (restA : List String) : ∀ bs, ovInner a restA bs = .ok false →
+    ∀ b ∈ bs, overlapExt a b = .ok false := by
+  intro bs
+  induction bs with
+  | nil => intro _ b hb; cases hb
+  | cons b bs ih =>
+    intro h b' hb'
+    simp only [ovInner] at h
+    cases ho : overlapExt a b with
+    | ok v =>
+      cases v
+      · simp only [ho] at h
+        rcases List.mem_cons.mp hb' with rfl | hm
+        · exact ho
+        · exact ih h b' hm
+      · simp only [ho] at h; split at h <;> cases h
+    | err => simp [ho] at h
+    | panic => simp [ho] at h
+
+theorem ovInner_true (a : String) (restA : List String) : ∀ bs, ovInner a restA bs = .ok true →
+    allExt restA = true ∧ allExt bs = true ∧ (parseExt a).isSome = true ∧ bs ≠ [] := by
+  intro bs
+  induction bs with
+  | nil => intro h; cases h
+  | cons b bs ih =>
+    intro h
+    simp only [ovInner] at h
+    cases ho : overlapExt a b with
+    | ok v =>
+      have hp := overlapExt_ok_parses a b v ho
+      cases v
+      · simp only [ho] at h
+        obtain ⟨h1, h2, h3, _⟩ := ih h
+        exact ⟨h1, by rw [allExt_cons, hp.2, h2]; rfl, h3, by simp⟩
+      · simp only [ho] at h
+        by_cases hc : (allExt restA && allExt bs) = true
+        · rw [Bool.and_eq_true] at hc
+          exact ⟨hc.1, by rw [allExt_cons, hp.2, hc.2]; rfl, hp.1, by simp⟩
+        · simp [hc] at h
+    | err => simp [ho] at h
+    | panic => simp [ho] at h
+
+theorem ovInner_no_panic (a : String) (restA : List String) : ∀ bs, ovInner a restA bs ≠ .panic := by
+  intro bs
+  induction bs with
+  | nil => simp [ovInner]
+  | cons b bs ih =>
+    simp only [ovInner]
+    cases ho : overlapExt a b with
+    | ok v => cases v <;> simp only []; exact ih; split <;> simp
+    | err => simp
+    | panic => exact absurd ho (overlapExt_no_panic a b)
+
+/-- the outer loop: an answer (true or false) certifies that everything it compared was well formed -/
+theorem ovOuter_spec (bs : List String) : ∀ as, (ovOuter bs as ≠ .panic) ∧
+    (ovOuter bs as = .ok true → allExt as = true ∧ allExt bs = true) ∧
+    (ovOuter bs as = .ok false → ∀ a ∈ as, ∀ b ∈ bs, overlapExt a b = .ok false) := by
+  intro as
+  induction as with
+  | nil => simp [ovOuter]
+  | cons a as ih =>
+    obtain ⟨i1, i2, i3⟩ := ih
+    simp only [ovOuter]
+    cases hi : ovInner a as bs with
+    | ok v =>
+      cases v
+      · simp only []
+        have hf := ovInner_false a as bs hi
+        refine ⟨i1, ?_, ?_⟩
+        · intro ht
+          obtain ⟨hA, hB⟩ := i2 ht
+          -- `a` was compared with a non-empty `bs` (otherwise no later row could have found a pair)
+          have hbs : bs ≠ [] := by
+            intro he; subst he
+            have : ∀ l, ovOuter [] l = .ok false := by
+              intro l; induction l with
+              | nil => rfl
+              | cons x l ihl => simp [ovOuter, ovInner, ihl]
+            rw [this as] at ht; cases ht
+          obtain ⟨b, hb⟩ := List.exists_mem_of_ne_nil _ hbs
+          have := overlapExt_ok_parses a b false (hf b hb)
+          exact ⟨by rw [allExt_cons, this.1, hA]; rfl, hB⟩
+        · intro hfalse a' ha' b hb
+          rcases List.mem_cons.mp ha' with rfl | hm
+          · exact hf b hb
+          · exact i3 hfalse a' hm b hb
+      · simp only []
+        obtain ⟨h1, h2, h3, _⟩ := ovInner_true a as bs hi
+        exact ⟨by simp, fun _ => ⟨by rw [allExt_cons, h3, h1]; rfl, h2⟩, fun h => by cases h⟩
+    | err => simp
+    | panic => exact absurd hi (ovInner_no_panic a as bs)
+
+theorem overlapExtArr_no_panic (as bs : List String) : overlapExtArr as bs ≠ .panic := by
   unfold overlapExtArr
-  generalize hl : (as.flatMap fun a => bs.map fun b => overlapExt a b) = l
-  have hmem : ∀ o ∈ l, o ≠ Outcome.panic := by
-    intro o ho; subst hl
-    obtain ⟨a, ha, hab⟩ := List.mem_flatMap.mp ho
-    obtain ⟨b, hb, rfl⟩ := List.mem_map.mp hab
-    exact h a ha b hb
-  clear hl
-  induction l with
-  | nil => simp [firstHit]
-  | cons o l ih =>
-    cases o with
-    | ok b => cases b <;> simp [firstHit]; exact ih (fun o ho => hmem o (List.mem_cons_of_mem _ ho))
-    | err => simp [firstHit]
-    | panic => exact absurd rfl (hmem _ List.mem_cons_self)
+  have := (ovOuter_spec bs as).1
+  cases h : ovOuter bs as with
+  | ok v => cases v <;> simp only []; split <;> simp; simp
+  | err => simp
+  | panic => exact absurd h this
+
+/-- **arr_rejects**: a malformed ID anywhere in either list is an error — also after an overlapping pair and when the
+other list is empty (the early-return defect D14/D18 is repaired) -/
+theorem arr_rejects (as bs : List String) (h : allExt as = false ∨ allExt bs = false) : overlapExtArr as bs = .err := by
+  obtain ⟨_, s2, s3⟩ := ovOuter_spec bs as
+  unfold overlapExtArr
+  cases ho : ovOuter bs as with
+  | ok v =>
+    cases v
+    · simp only []
+      by_cases he : (as.isEmpty || bs.isEmpty) = true
+      · have : (allExt as && allExt bs) = false := by rcases h with h | h <;> simp [h]
+        simp [he, this]
+      · exfalso
+        simp only [Bool.or_eq_true, List.isEmpty_iff, not_or] at he
+        have hpairs := s3 ho
+        obtain ⟨a0, ha0⟩ := List.exists_mem_of_ne_nil _ he.1
+        obtain ⟨b0, hb0⟩ := List.exists_mem_of_ne_nil _ he.2
+        have hA : allExt as = true := by
+          unfold allExt; rw [List.all_eq_true]; intro a ha
+          exact (overlapExt_ok_parses a b0 false (hpairs a ha b0 hb0)).1
+        have hB : allExt bs = true := by
+          unfold allExt; rw [List.all_eq_true]; intro b hb
+          exact (overlapExt_ok_parses a0 b false (hpairs a0 ha0 b hb)).2
+        rcases h with h | h <;> simp_all
+    · exfalso
+      obtain ⟨hA, hB⟩ := s2 ho
+      rcases h with h | h <;> simp_all
+  | err => rfl
+  | panic => exact absurd ho (ovOuter_spec bs as).1
 
 /-! ### spatial IDs through the (abstract) radix tree -/
 
@@ -297,14 +509,18 @@ theorem overlapSp_valid (a b : String) (z1 f1 x1 y1 z2 f2 x2 y2 : Int)
     (v1 : spValid z1 f1 x1 y1) (v2 : spValid z2 f2 x2 y2) :
     overlapSp a b = .ok (decide (meets ⟨z1, x1, y1, z1, f1⟩ ⟨z2, x2, y2, z2, f2⟩)) := by
   unfold overlapSp overlapSpArr
-  simp only [List.mapM_cons, List.mapM_nil, spKey_valid a _ _ _ _ pa v1, bind, Option.bind, pure, overlapSpArr.go,
-    spKey_valid b _ _ _ _ pb v2, List.isEmpty_cons, treeOverlap, List.any_cons, List.any_nil, Bool.or_false]
+  simp only [List.mapM_cons, List.mapM_nil, spKey_valid a _ _ _ _ pa v1, spKey_valid b _ _ _ _ pb v2, bind, Option.bind, pure,
+    List.isEmpty_cons, treeOverlap, List.any_cons, List.any_nil, Bool.or_false]
   have := sp_iff_meet z1 f1 x1 y1 z2 f2 x2 y2 v1 v2
   simp only at this
   rw [if_neg (by decide)]
   by_cases hm : meets ⟨z1, x1, y1, z1, f1⟩ ⟨z2, x2, y2, z2, f2⟩
-  · rw [if_pos (this.mpr hm)]; simp only [hm, decide_true]
-  · rw [if_neg (fun h => hm (this.mp h))]; simp only [hm, decide_false]
+  · rw [this.mpr hm]; simp only [hm, decide_true]
+  · have hf : ¬ ((Key.isPrefixOf ⟨z1, f1 + 2 ^ (z1 - 1).toNat, x1, y1⟩ ⟨z2, f2 + 2 ^ (z2 - 1).toNat, x2, y2⟩ ||
+        Key.isPrefixOf ⟨z2, f2 + 2 ^ (z2 - 1).toNat, x2, y2⟩ ⟨z1, f1 + 2 ^ (z1 - 1).toNat, x1, y1⟩) = true) :=
+      fun h => hm (this.mp h)
+    rw [Bool.not_eq_true] at hf
+    rw [hf]; simp only [hm, decide_false]
 
 /-- **sp_eq_ext**: on inputs valid for both, the tree-based check and the zoom-change-based check agree -/
 theorem sp_eq_ext (a b : String) (z1 f1 x1 y1 z2 f2 x2 y2 : Int)
@@ -315,17 +531,6 @@ theorem sp_eq_ext (a b : String) (z1 f1 x1 y1 z2 f2 x2 y2 : Int)
   · unfold spValid at v1; unfold C03.wf; simp only; omega
   · unfold spValid at v2; unfold C03.wf; simp only; omega
 
-/-- **sp_empty**: either list empty ⇒ false (as long as the other list is well-formed), never a panic -/
-theorem sp_empty_left (bs : List String) (h : ∀ b ∈ bs, (spKey b).isSome) : overlapSpArr [] bs = .ok false := by
-  unfold overlapSpArr
-  simp only [List.mapM_nil, pure]
-  induction bs with
-  | nil => rfl
-  | cons b r ih =>
-    obtain ⟨k, hk⟩ := Option.isSome_iff_exists.mp (h b List.mem_cons_self)
-    simp only [overlapSpArr.go, hk, List.isEmpty_nil, if_true]
-    exact ih (fun b hb => h b (List.mem_cons_of_mem _ hb))
-
 theorem mapM_spKey_some (as : List String) (h : ∀ a ∈ as, (spKey a).isSome) : ∃ l, as.mapM spKey = some l := by
   induction as with
   | nil => exact ⟨[], rfl⟩
@@ -334,29 +539,34 @@ theorem mapM_spKey_some (as : List String) (h : ∀ a ∈ as, (spKey a).isSome) 
     obtain ⟨l, hl⟩ := ih (fun b hb => h b (List.mem_cons_of_mem _ hb))
     exact ⟨k :: l, by simp [List.mapM_cons, hk, hl]⟩
 
+/-- **sp_empty**: either list empty ⇒ false (the other list being well formed) -/
+theorem sp_empty_left (bs : List String) (h : ∀ b ∈ bs, (spKey b).isSome) : overlapSpArr [] bs = .ok false := by
+  obtain ⟨l, hl⟩ := mapM_spKey_some bs h
+  simp [overlapSpArr, hl]
+
 theorem sp_empty_right (as : List String) (h : ∀ a ∈ as, (spKey a).isSome) : overlapSpArr as [] = .ok false := by
   obtain ⟨l, hl⟩ := mapM_spKey_some as h
   unfold overlapSpArr
   rw [hl]
-  rfl
+  simp
+
+/-- **sp_rejects**: a malformed or out-of-range ID anywhere in either list is an error -/
+theorem sp_rejects (as bs : List String) (s : String) (hs : s ∈ as ∨ s ∈ bs) (h : spKey s = none) : overlapSpArr as bs = .err := by
+  unfold overlapSpArr
+  rcases hs with hs | hs
+  · rw [mapM_option_none _ as s hs h]
+  · cases as.mapM spKey with
+    | none => rfl
+    | some stored => simp only []; rw [mapM_option_none _ bs s hs h]
 
 /-- the model of the spatial check never panics (the empty-tree panic D3 is gone) -/
 theorem sp_no_panic (as bs : List String) : overlapSpArr as bs ≠ .panic := by
   unfold overlapSpArr
   split
   · simp
-  · rename_i stored _
-    induction bs with
-    | nil => simp [overlapSpArr.go]
-    | cons b r ih =>
-      simp only [overlapSpArr.go]
-      split
-      · simp
-      · split
-        · exact ih
-        · split
-          · simp
-          · exact ih
+  · split
+    · simp
+    · split <;> simp
 
 example : overlapE ⟨5, 1, 1, 5, -1⟩ ⟨5, 1, 1, 4, -1⟩ = .ok true := by decide
 example : overlapE ⟨5, 1, 1, 5, -1⟩ ⟨5, 1, 1, 4, 0⟩ = .ok false := by decide
